@@ -36,7 +36,7 @@ impl Prop for C04 {
         500
     }
     fn cases(&self, tier: Tier) -> u32 {
-        tier.pick(16_000, 400_000)
+        tier.pick(300_000, 5_000_000)
     }
     fn decode(&self, choices: &[u32], tier: Tier) -> Value {
         let c = decode_case(choices, tier, &opts(tier), 12, &[1, 6, 3]);
